@@ -7,8 +7,11 @@ use lol_html::AsciiCompatibleEncoding;
 use lol_html::test_utils::ASCII_COMPATIBLE_ENCODINGS;
 use lol_html::verif_hooks::{VerifDecodedChunk, VerifTextDecoder};
 
-/// encodings the Lean side has an executable codec for
-const MODELLED: [&str; 3] = ["UTF-8", "windows-1252", "ISO-8859-7"];
+/// encodings the Lean side has an executable codec for: UTF-8, x-user-defined and the 28 single-byte
+/// encodings (tables generated from encoding_rs' data.rs)
+fn modelled(name: &str) -> bool {
+    find_enc(name).is_some_and(|e| e == encoding_rs::UTF_8 || e.is_single_byte())
+}
 
 fn find_enc(name: &str) -> Option<&'static Encoding> {
     ASCII_COMPATIBLE_ENCODINGS.iter().copied().find(|e| e.name() == name)
@@ -95,7 +98,7 @@ fn run_dec(f: &[&str]) -> String {
             flag = format!(" ||ORACLE:C13:range-end {name} end {expect} want {}", start + bytes.len());
         }
     }
-    let obs = if MODELLED.contains(name) { chunks_str(&out) } else { "impl-only".into() };
+    let obs = if modelled(name) { chunks_str(&out) } else { "impl-only".into() };
     let flag = also_c14(flag);
     format!("{obs}{flag}")
 }
@@ -156,7 +159,7 @@ fn run_tenc(f: &[&str]) -> String {
     } else if empty_chunk_before_end {
         flag = format!(" ||ORACLE:C13:encode-empty-chunk {name}");
     }
-    let obs = if MODELLED.contains(name) { hex_or_dash(&out) } else { "impl-only".into() };
+    let obs = if modelled(name) { hex_or_dash(&out) } else { "impl-only".into() };
     format!("{obs}{flag}")
 }
 
